@@ -218,6 +218,12 @@ def history_task(task):
                     if "serial" in mons:
                         keep = []
                         for sh in shadows:
+                            if d["op"] == "smc" and d.get("where") == "new" and not hist._dense(sh[0]):
+                                # create_root_node's naming precondition (clone names 0..K-1) holds for the main tree
+                                # (History.choose checks it) but not for this copy whose grafts were relabelled
+                                # differently: retire the copy rather than call the code outside its contract
+                                part.count("serial_shadows_retired_non_dense_names")
+                                continue
                             strict = sh[3] and d["op"] != "relabel" and d.get("inplace") != "relabel"
                             sh[3] = strict
                             sh[0] = hist.apply(sh[0], d if strict else translate(d, old, sh[0]))
